@@ -18,8 +18,10 @@ XParent(id) == SubSeq(id, 1, Len(id) - 1)
 XIsPrefix(a, b) == Len(a) <= Len(b) /\ SubSeq(b, 1, Len(a)) = a
 
 \* ------------------------------------------------------------------ the DAG
-RECURSIVE XReach(_,_)
-XReach(N, n) == {n} \cup UNION { XReach(N, N[n].prems[k]) : k \in 1..Len(N[n].prems) }
+\* the nodes a node depends on (premises have smaller indices: one sweep downwards, linear also with heavy sharing)
+RECURSIVE XReachDown(_,_,_)
+XReachDown(N, k, S) == IF k = 0 THEN S ELSE XReachDown(N, k - 1, IF k \in S THEN S \cup XSetOf(N[k].prems) ELSE S)
+XReach(N, n) == XReachDown(N, n, {n})
 XGaps(N, root) == { N[n].th : n \in { m \in XReach(N, root) : N[m].rule = "sorry" } }
 XWellFormed(N) == \A n \in 1..Len(N) : \A k \in 1..Len(N[n].prems) : N[n].prems[k] \in 1..(n - 1)
 
